@@ -52,8 +52,8 @@ def call (c : Cfg) (s : St) (o : Outcome) : St × CallOut :=
           else
             -- `if not background: await task`  (the exception of a failing refresh propagates)
             match o with
-            | .ok => ({ s with t := save c t1 id, nexec := id + 1 }, ⟨.stored stamp id0, true, false⟩)
-            | _ => ({ s with t := t1, nexec := id + 1 }, ⟨.raised o, true, false⟩)
+            | .ok => ({ s with t := save c t1 id, nexec := id + 1 }, ⟨.stored stamp id0, true, true⟩)
+            | _ => ({ s with t := t1, nexec := id + 1 }, ⟨.raised o, true, true⟩)
         else ({ s with t := t1 }, ⟨.stored stamp id0, false, false⟩)
       else execute c s t1 o
     | none => execute c s t1 o
@@ -79,17 +79,31 @@ def isStored : Res → Bool
   | .stored _ _ => true
   | _ => false
 
-/-- serves since the function last began to execute: an answer that executed the function or
-created a refresh task resets the count, an answer taken from the store adds one (a foreground
-refresh executes first and answers afterwards, hence reset-then-count). -/
-def runAfter (g : Nat) : Ans → Nat
+/-- serves since the last execution event: an answer that executed the function or created a refresh
+task resets the count, an answer taken from the store adds one (a foreground refresh executes first
+and answers afterwards, hence reset-then-count).  With `resetOnDone` a background refresh that
+completes and stores its result counts as an execution event too. -/
+def runAfter (resetOnDone : Bool) (g : Nat) : Ans → Nat
   | .call out => (if out.exec || out.started then 0 else g) + (if isStored out.res then 1 else 0)
+  | .done .stored => if resetOnDone then 0 else g
   | _ => g
 
-/-- the same, but a background refresh that completes and stores also counts as an execution event -/
-def runAfter' (g : Nat) : Ans → Nat
-  | .call out => (if out.exec || out.started then 0 else g) + (if isStored out.res then 1 else 0)
+/-- a result was stored while this call ran -/
+def storedIn (out : CallOut) : Bool :=
+  match out.res with
+  | .fresh _ _ => true
+  | .stored _ _ => out.exec      -- a foreground refresh succeeded (its failure raises)
+  | _ => false
+
+/-- calls since a result was last stored (= what `<key>:counter` counts while that result lives) -/
+def callsAfter (k : Nat) : Ans → Nat
+  | .call out => if storedIn out then 0 else k + 1
   | .done .stored => 0
-  | _ => g
+  | _ => k
+
+/-- the two counts at the end of a recorded history: (serves since the last execution event,
+calls since the last store) -/
+def counts (resetOnDone : Bool) (tr : List (St × DOp × Ans)) : Nat × Nat :=
+  tr.foldl (fun gk e => (runAfter resetOnDone gk.1 e.2.2, callsAfter gk.2 e.2.2)) (0, 0)
 
 end CashewsVerif.Decor.Hit
